@@ -649,7 +649,9 @@ func (m *monitors) onPublish(subject, payload string) {
 		if json.Unmarshal([]byte(payload), &tr) == nil && tr.Subject != "" {
 			m.resetFor[tr.Subject] = map[string]bool{}
 			for _, t := range tr.TIDs {
-				m.resetFor[tr.Subject][t] = true
+				if t != "" { // an empty token id addresses nobody
+					m.resetFor[tr.Subject][t] = true
+				}
 			}
 		}
 	}
@@ -946,6 +948,8 @@ func (w *world) finalChecks() {
 			nq := w.truth.normQuery(q)
 			if !d.query {
 				nq = ""
+			} else if q == "" && d.defQuery != "" {
+				nq = d.defQuery
 			}
 			tr := w.truth.get(name, nq)
 			if tr == nil || tr.deleted {
